@@ -24,6 +24,8 @@ Definition i32_max : Z := 2147483647.
 Definition in_i32 (v : Z) : bool := (i32_min <=? v) && (v <=? i32_max).
 (* a checked i32 operation: Err Overflow where a debug build panics *)
 Definition chk32 (v : Z) : result Z := if in_i32 v then Ok v else Err Overflow.
+(* i32::saturating_add and friends: the exact result clamped to the i32 range *)
+Definition sat32 (v : Z) : Z := Z.max i32_min (Z.min i32_max v).
 (* two's complement wrap to i32 / u32 / u8 (Rust "as" casts and wrapping arithmetic) *)
 Definition wrapu32 (v : Z) : Z := Z.land v 4294967295.
 Definition wrap32 (v : Z) : Z := let u := wrapu32 v in if u <? 2147483648 then u else u - 4294967296.
